@@ -1,0 +1,12 @@
+//go:build verif
+// +build verif
+
+package utility
+
+import "time"
+
+// VerifC01AdvanceClock moves the clock GetTime() reports forward by d (it adds to the NTP
+// offset), so a harness can make the cast deadline strike at a chosen point of an execution.
+func VerifC01AdvanceClock(d time.Duration) {
+	timeOffset += d
+}
